@@ -568,8 +568,10 @@ def check_awaitable_result(ctx, R, classes):
             # the result is dropped on this path: a complete awaitability test of it must have been false
             ok = False
             for e in evs:
-                if e.kind == 'COND' and e.b is False and isinstance((e.x or {}).get('node'), ast.Call):
-                    c = e.x['node']
+                c = (e.x or {}).get('node') if e.kind == 'COND' else None
+                while isinstance(c, ast.UnaryOp) and isinstance(c.op, ast.Not):
+                    c = c.operand           # (e.b is the outcome of the test with its negations folded in)
+                if e.kind == 'COND' and e.b is False and isinstance(c, ast.Call):
                     if src(c.func) in FULL_AWAITABLE_TESTS and len(c.args) == 1 and any(
                             t.startswith('ucall:') for t in ((e.x or {}).get('arg_tags') or ())):
                         ok = True
